@@ -185,6 +185,51 @@ class IdentityRun(PubSubRun):
         self.w.quiesce()
         self.after_step(att)
 
+    def step_lazy(self):
+        """a raw participant connects its socket now and sends its handshake only later (after others)"""
+        ch = self.ch
+        pending = getattr(self, "lazy", [])
+        if pending and ch.flag("id.lazy_fire", 2, 3):
+            a, o, proto = pending.pop(0)
+            if not a.alive:
+                return
+            a.handshake(proto, req_id=o["rid"], logger=o["logger"], allow_multiple=o["multi"], name=o["name"],
+                        pid=6000 + len(self.parts), daemon=o["daemon"])
+            a.subscribe(T)
+            att = dict(via="raw_" + proto, opts=o, idx=self.parts.index(a), part=a, conn=a.conn, outcome=None)
+            self.attempts.append(att)
+            self.t(f"{a.name} (accepted earlier) now sends its handshake id={o['rid']} multi={o['multi']} name={o['name']!r}")
+            self.res.probes["late_handshake"] += 1
+            self.w.quiesce()
+            self.after_step(att)
+            return
+        o = self.draw_opts()
+        a = self.new_actor(f"p{len(self.parts)}")
+        a.protected = True
+        a.open()
+        a.opts = o
+        a.via = "raw_v2v1"
+        self.parts.append(a)
+        self.lazy = pending + [(a, o, ch.choose("id.lazy_proto", ["v2v1", "v1", "v2"]))]
+        self.t(f"{a.name} opens a connection and stays silent for now")
+        self.w.quiesce()
+
+    def step_vanish(self):
+        """a requester is gone before the manager can acknowledge it"""
+        ch = self.ch
+        o = self.draw_opts()
+        a = self.new_actor(f"p{len(self.parts)}")
+        a.protected = True
+        a.open()
+        a.opts = o
+        a.via = "raw_v2v1"
+        a.handshake("v2v1", req_id=o["rid"], logger=o["logger"], allow_multiple=o["multi"], name=o["name"], pid=1)
+        a.leave(ch.choose("id.vanish_way", ["rst", "fin"]))
+        self.parts.append(a)
+        self.t(f"{a.name} asks for id={o['rid']} and is gone before the acknowledgement")
+        self.res.probes["vanished_requester"] += 1
+        self.w.quiesce()
+
     def step_disconnect(self):
         ch = self.ch
         live = [p for p in self.parts if p.alive]
@@ -409,13 +454,18 @@ class IdentityRun(PubSubRun):
             n = 2 + ch.pick("id.nsteps", 12)
             bursts = 0
             for _ in range(n):
-                k = ch.weighted("id.step", [(8, "connect"), (3, "disconnect"), (1, "burst"), (2, "drop")])
+                k = ch.weighted("id.step", [(8, "connect"), (3, "disconnect"), (1, "burst"), (2, "drop"), (2, "lazy"),
+                                            (1, "vanish")])
                 if k == "connect":
                     self.step_connect()
                 elif k == "disconnect":
                     self.step_disconnect()
                 elif k == "drop":
                     self.step_drop_reconnect()
+                elif k == "lazy":
+                    self.step_lazy()
+                elif k == "vanish":
+                    self.step_vanish()
                 elif bursts < 2:
                     bursts += 1
                     self.step_dyn_burst()
